@@ -1,6 +1,7 @@
 package replica
 
 import (
+	"encoding/json"
 	"fmt"
 
 	abci "github.com/cometbft/cometbft/abci/types"
@@ -62,6 +63,17 @@ func battery(w *world.World) []queryReq {
 		{"/haqq.coinomics.v1.Query/RewardCoefficient", nil},
 	}
 	_ = vestAddr
+	// queries that execute the EVM on the latest committed state: a call returning CHAINID and one
+	// reading state through the bank precompile, with the chain id given and left to the node
+	for _, to := range []common.Address{ChainIDAddr, QueryAddr} {
+		to := to
+		from := w.Eth[3]
+		args, _ := json.Marshal(evmtypes.TransactionArgs{From: &from, To: &to})
+		for _, cid := range []int64{w.EIP155().Int64(), 0} {
+			req := m(&evmtypes.EthCallRequest{Args: args, GasCap: 3000000, ChainId: cid, ProposerAddress: w.ValCons[0]})
+			qs = append(qs, queryReq{"/ethermint.evm.v1.Query/EthCall", req}, queryReq{"/ethermint.evm.v1.Query/EstimateGas", req})
+		}
+	}
 	// by-key queries for every object the committed state holds: token pairs by denomination and by
 	// contract address (the two secondary indexes), liquid denominations, DAO balances of the holders
 	ctx := w.App.NewContext(true, w.Header)
